@@ -230,15 +230,17 @@ func lanv2Family(c *inst, raw json.RawMessage, full bool, sum *core.Summary) {
 		return
 	}
 	a, b, cc0, d := val(x.A11, c.Den, 0), val(x.A12, c.Den, 0), val(x.A21, c.Den, 0), val(x.A22, c.Den, 0)
-	var aa, bb, cc, dd, rt1r, rt1i, rt2r, rt2i float64
+	var aa, bb, cc, dd, rt1r, rt1i, rt2r, rt2i, cs, sn float64
 	k.where = desc("Dlanv2", a, b, cc0, d)
-	if !k.run("Dlanv2", func() { aa, bb, cc, dd, rt1r, rt1i, rt2r, rt2i, _, _ = impl.Dlanv2(a, b, cc0, d) }) {
+	if !k.run("Dlanv2", func() { aa, bb, cc, dd, rt1r, rt1i, rt2r, rt2i, cs, sn = impl.Dlanv2(a, b, cc0, d) }) {
 		return
 	}
 	sum.Cases++
 	if b != 0 && cc0 != 0 {
 		sum.Nontrivial++
 	}
+	// the documented factorization with the returned rotation: GenPred!Lanv2Accept
+	k.lanv2Identity([4]float64{a, b, cc0, d}, [4]float64{aa, bb, cc, dd}, cs, sn)
 	if x.Either {
 		// zero discriminant: either documented form
 		legalC := cc != 0 && aa == dd && bb*cc < 0 && rt1r == aa && rt2r == aa && rt1i > 0 && rt2i == -rt1i
@@ -310,6 +312,10 @@ func trexcFamily(c *inst, raw json.RawMessage, full bool, sum *core.Summary) {
 	if !want("trexc") {
 		return
 	}
+	if x.Ifst == x.Ilst && x.Ifst == 0 {
+		// no move: the printed block sequence is that of the input, which Dtrevc3 takes as it is
+		k.trevcDirect(c, x.Blocks)
+	}
 	for _, compq := range []lapack.UpdateSchurComp{lapack.UpdateSchurNone, lapack.UpdateSchur} {
 		for _, pad := range pads {
 			ldt := n + pad
@@ -342,6 +348,12 @@ func trexcFamily(c *inst, raw json.RawMessage, full bool, sum *core.Summary) {
 			if fo != x.IfstOut || lo != x.IlstOut {
 				k.fail("Dtrexc", "index", "returned ifstOut = %d, ilstOut = %d, specification says %d, %d", fo, lo, x.IfstOut, x.IlstOut)
 				continue
+			}
+			// orthogonal similarity: GenPred!SimAccept
+			if compq == lapack.UpdateSchur {
+				k.simIdentity("Dtrexc", c, q, ldq, t, ldt)
+			} else {
+				k.simIdentity("Dtrexc", c, nil, 0, t, ldt)
 			}
 			// walk the diagonal blocks
 			i := 0
